@@ -9,32 +9,60 @@ KNOWN = [f['key'] for f in known['findings']]
 def is_known(key):
     return any(key == k or key.startswith(k.split(':')[0]) and k.startswith(key.split(':')[0]) and (':' not in k or k in key or key in k) for k in KNOWN)
 
-rows = []
-only = sys.argv[1:]
-for d in sorted(os.listdir('/verif/seeded')):
-    if only and d not in only:
-        continue
+QUICK = {"C01": 1000, "C02": 800, "C03": 1000, "C04": 1200, "C05": 700, "C06": 800, "C07": 800, "C08": 640, "C09": 900,
+         "C10": 1200, "C11": 800, "C12": 800, "C15": 500, "C16": 1000, "C17": 780, "C18": 800}
+
+def try_one(d, lane):
     meta = json.load(open('/verif/seeded/%s/meta.json' % d))
     prop = meta['property']
     check = (meta.get('verif_result') or {}).get('caught_by_check') or prop
-    runs = '1200' if check in ('C16', 'C03', 'C01', 'C09') else '800'
+    runs = str(QUICK.get(check, 800))          # what the quick tier of that check runs
+    env = dict(os.environ, LANE=lane)
     out = subprocess.run(['/verif/seedtest.sh', '/verif/seeded/' + d, check, runs, '8'],
-                         stdout=subprocess.PIPE, stderr=subprocess.STDOUT, text=True).stdout
+                         stdout=subprocess.PIPE, stderr=subprocess.STDOUT, text=True, env=env).stdout
     own = []
     total = 0
     for line in out.splitlines():
         m = re.match(r'^(\d+) (C\d\d/\S+) \[(.*)\]', line)
-        if m and m.group(2).startswith(check + '/') and not is_known(m.group(2)):
-            own.append('%s ×%s' % (m.group(2), m.group(1)))
+        if m and not is_known(m.group(2)):
+            if m.group(2).startswith(check + '/'):
+                own.append('%s ×%s' % (m.group(2), m.group(1)))
+            elif check == 'C08':
+                # what a crash adds to other properties' monitors counts for C08 (as in `vf`): the
+                # crash-free twin of history h has index h*100000
+                idx = [int(x) for x in m.group(3).split(',') if x.strip()]
+                if idx and all(i % 100000 != 0 for i in idx):
+                    own.append('C08/crash_induced:%s ×%s' % (m.group(2), m.group(1)))
         m = re.match(r'^runs (\d+)', line)
         if m:
             total = int(m.group(1))
-    rows.append((d, prop, check, total, own))
+    if 'PATCH DOES NOT APPLY' in out:
+        own = []
+        total = -1
     print(d, check, total, own[:3], flush=True)
+    return (d, prop, check, total, own)
+
+import threading
+todo = [d for d in sorted(os.listdir('/verif/seeded')) if not only or d in only]
+rows = []
+lock = threading.Lock()
+def lane_worker(lane):
+    while True:
+        with lock:
+            if not todo:
+                return
+            d = todo.pop(0)
+        r = try_one(d, lane)
+        with lock:
+            rows.append(r)
+ts = [threading.Thread(target=lane_worker, args=(l,)) for l in ('', '2')]
+for t in ts: t.start()
+for t in ts: t.join()
+rows.sort()
 
 with open('/verif/SENSITIVITY.md', 'w') as f:
     f.write('# Seeded property-breaking changes re-tried by /verif/sensitivity.py\n\n')
-    f.write('Each row: /verif/seedtest.sh /verif/seeded/<id> <check> on a scratch worktree of /repo HEAD; a change counts as caught when the check reports a violation of its own property that is not a known finding.\n\n')
+    f.write('Each row: /verif/seedtest.sh /verif/seeded/<id> <check> <runs of the quick tier of that check> on a scratch worktree of /repo HEAD (VERIF_SEED 1); a change counts as caught when the check reports a violation of its own property that is not a known finding.\n\n')
     f.write('| seeded change | property | check | runs | result |\n|---|---|---|---|---|\n')
     for d, prop, check, total, own in rows:
         f.write('| %s | %s | %s | %d | %s |\n' % (d, prop, check, total, ('caught: ' + '; '.join(own[:4])) if own else '**missed**'))
